@@ -92,6 +92,14 @@ def gen_lattice(max_bound, two_var_bound):
                     for tol in (0.5, 0.0, 1.0, 2.0):
                         yield {'nvars': 1, 'n': 3, 't': 1, 'script': script,
                                'opts': {'min_iter': min_iter, 'max_iter': max_iter, 'tol': tol, 'failures': 'ignore'}}
+        # mixed dtypes: the model's default dtype cannot represent the moves of a float64 check variable added later
+        for mixed, step in (('int', 0.25), ('int', 0.5), ('float32', 2.0 ** -30), ('float32', 0.25)):
+            for moves in (1, 3, 5):
+                script = {f'1:{k + 1}': [['R', ['move', step]]] for k in range(moves)}
+                for max_iter in (moves, moves + 1, moves + 3):
+                    yield {'nvars': 1, 'n': 3, 't': 1, 'mixed': mixed, 'script': script,
+                           'init': {'A': [1.0, 1.0, 1.0], 'X': [0.0, 0.0, 0.0], 'R': [1.0, 1.0, 1.0]},
+                           'opts': {'min_iter': 0, 'max_iter': max_iter, 'tol': step / 2, 'failures': 'ignore'}}
         # passes that rebind the series (whole-series list assignment inside _evaluate) instead of writing in place
         for max_iter in (1, 2, 3, 4):
             for seq in itertools.product(range(3), repeat=max_iter):
